@@ -4,10 +4,10 @@ Require Extraction.
 Require Import ExtrOcamlBasic.
 From MMD.lib Require Import Bytes.
 From MMD.lib Require Import Lemon Utf8 XmlDfa.
-From MMD.lib Require Import MiniC.
+From MMD.lib Require Import MiniC BlockComp.
 From MMD.gen Require Import ParserTables Bounds.
 From MMD.gen Require Import Escapers CharTable.
-From MMD.model Require Import DStringModel DStringSpec PoolModel TreeCheck LabelModel CriticModel TranscludeModel MetaModel AnchorModel HeaderIdModel OpmlModel MetaSwitchModel TableAlignModel SpecRender.
+From MMD.model Require Import DStringModel DStringSpec PoolModel TreeCheck LabelModel CriticModel TranscludeModel MetaModel AnchorModel HeaderIdModel OpmlModel MetaSwitchModel TableAlignModel SpecRender BlockLang.
 From MMD.proofs Require Import EscaperProofs.
 Extraction Language OCaml.
 Extraction "mmdmodel.ml"
@@ -28,4 +28,5 @@ Extraction "mmdmodel.ml"
   OpmlModel.xml_as_text OpmlModel.export_tags OpmlModel.import_levels OpmlModel.properly_nested
   MetaSwitchModel.process MetaSwitchModel.is_control MiniC.has_flag
   TableAlignModel.record TableAlignModel.colspec Bounds.table_alignment_size Bounds.record_limit
-  SpecRender.render SpecRender.spell.
+  SpecRender.render SpecRender.spell
+  BlockComp.bc_F BlockComp.drun BlockLang.dstep BlockLang.FIN ParserTables.NT_block.
